@@ -166,7 +166,12 @@ class NimAddrDecoder(IAddrDecoder):
         # Validate checksum
         AddrDecUtils.ValidateChecksum(pub_key_hash_enc, checksum, _NimAddrUtils.ComputeChecksum)
 
-        return Base32Decoder.Decode(pub_key_hash_enc, NimAddrConst.BASE32_ALPHABET)
+        # Decode from base32
+        pub_key_hash_bytes = Base32Decoder.Decode(pub_key_hash_enc, NimAddrConst.BASE32_ALPHABET)
+        # Validate decoded length (padding characters would pass the encoded length check)
+        AddrDecUtils.ValidateLength(pub_key_hash_bytes, NimAddrConst.HASH_BYTE_LEN)
+
+        return pub_key_hash_bytes
 
 
 class NimAddrEncoder(IAddrEncoder):
